@@ -3,9 +3,14 @@ package main
 // The case streams: corpus first, then generated, then malformed, then snapshots.
 
 import (
+	"bytes"
 	"encoding/hex"
+	"fmt"
 	"math/big"
+	"os"
+	"runtime"
 
+	"github.com/piotrnar/gocoin/lib/utxo"
 	"verif/vlib"
 )
 
@@ -349,12 +354,87 @@ func runSnapshots(g *vlib.Rng) {
 			checkSnap("raw", sc)
 		}
 	}
+	bigSnapshot(g)
 	// through the public API of a fresh database (no UTXO.db yet, CompressRecords from the configuration)
 	for _, k := range []int{1, 5, 100} {
 		for _, c := range []bool{false, true} {
 			copy(hash[:], g.Bytes(32))
 			sc := &snapCase{Compressed: c, Height: 1 + uint32(g.Intn(1000)), Hash: append([]byte{}, hash[:]...), Recs: mk(k, 20, 3000), ViaCommit: true}
 			checkSnap("fresh-db-commit", sc)
+		}
+	}
+}
+
+// bigSnapshot: the loader of UTXO.db reads the file into a ring of BUFFERS_CNT static buffers of RECS_PACK_SIZE records
+// each and hands full packs to ONE map-filling goroutine through a channel. A snapshot with more records than the whole
+// ring holds (> 6 * 65536) is needed for the reader to come round to a buffer again; here it is about two rings long, the
+// keys are concentrated in one or two of the 256 maps (the loader pre-sizes every map for count/256 records, so these maps
+// must grow while they are filled and the consumer is slower than the reader), and the reload is repeated under
+// GOMAXPROCS 1, 2 and the default (with one P the consumer is preempted in the middle of a pack and the reader runs a whole
+// time slice ahead: measured on a tree with CHANNEL_SIZE = BUFFERS_CNT-1 this loses records on nearly every reload). Property predicate only (every stored record is found,
+// byte-identical; count; header); the framing of the file is tied to the model by the smaller snapshots. Theorem side:
+// Props.C10.loader_ring_safe over the constants gen_c10 reads from the source.
+func bigSnapshot(g *vlib.Rng) {
+	nrec := (11+g.Intn(4))*0x10000 + g.Intn(0x10000) // 11 .. 15 packs: the reader comes round the ring at least once more
+	compressed := g.Bool()
+	setMode(compressed)
+	defer setMode(false)
+	stored := make(map[utxo.UtxoKeyType][]byte, nrec)
+	firsts := []byte{byte(g.Intn(256))}
+	if g.Chance(1, 3) {
+		firsts = append(firsts, byte(g.Intn(256)))
+	}
+	height := genHeight(g)
+	for len(stored) < nrec {
+		u := &utxo.UtxoRec{InBlock: uint32(1 + g.Intn(800000)), Coinbase: g.Intn(50) == 0}
+		copy(u.TxID[:], g.Bytes(32))
+		u.TxID[0] = firsts[g.Intn(len(firsts))]
+		n := 1 + g.Intn(3)
+		u.Outs = make([]*utxo.UtxoTxOut, n)
+		u.Outs[g.Intn(n)] = &utxo.UtxoTxOut{Value: uint64(g.Intn(1 << 30)), PKScr: g.Bytes(g.Pick(0, 1, 5, 22, 23, 25))}
+		p := utxo.Serialize(u, nil)
+		var k utxo.UtxoKeyType
+		copy(k[:], u.TxID[:])
+		stored[k] = exact(*p)
+	}
+	r.Eval("snap-"+modeStr(compressed)+":big", fmt.Sprint("big", nrec, compressed, height, firsts))
+	r.Hit(fmt.Sprintf("snap:records≤%d", bucket(nrec)))
+	rep := map[string]interface{}{"kind": "bigsnap", "records": nrec, "compressed": compressed, "note": "re-run the snapshots stream with the recorded seed"}
+	dir, err := os.MkdirTemp("", "vc10")
+	if err != nil {
+		fmt.Fprintln(os.Stderr, "tempdir:", err)
+		os.Exit(3)
+	}
+	defer os.RemoveAll(dir)
+	dir += string(os.PathSeparator)
+	hash := g.Bytes(32)
+	if e := saveSnapshot(dir, &Snap{Compressed: compressed, Height: height, Hash: hash, Recs: stored}); e != "" {
+		r.PropFail("snapshot-"+modeStr(compressed), "saving a snapshot of "+fmt.Sprint(nrec)+" records: "+e, rep)
+		return
+	}
+	prev := runtime.GOMAXPROCS(0)
+	defer runtime.GOMAXPROCS(prev)
+	for _, procs := range []int{1, 2, prev, 1} {
+		setMode(false)
+		loaded, _, e := loadSnapshotT(dir, procs)
+		if e != "" {
+			r.PropFail("snapshot-"+modeStr(compressed), fmt.Sprintf("reloading a snapshot of %d records (GOMAXPROCS %d): %s", nrec, procs, e), rep)
+			return
+		}
+		r.Hit(fmt.Sprintf("snap:big-reload-gomaxprocs-%d", procs))
+		missing, wrong := 0, 0
+		for k, v := range stored {
+			got, ok := loaded.Recs[k]
+			if !ok {
+				missing++
+			} else if !bytes.Equal(got, v) {
+				wrong++
+			}
+		}
+		if missing > 0 || wrong > 0 || len(loaded.Recs) != nrec || loaded.Height != height || !bytes.Equal(loaded.Hash, hash) || loaded.Compressed != compressed {
+			r.PropFail("snapshot-"+modeStr(compressed), fmt.Sprintf("a snapshot of %d records (%.1f packs of the loader's ring) reloaded with GOMAXPROCS %d holds %d records: %d of the stored ones are missing, %d differ; header %d/%v (stored %d/%v)",
+				nrec, float64(nrec)/65536, procs, len(loaded.Recs), missing, wrong, loaded.Height, loaded.Compressed, height, compressed), rep)
+			return
 		}
 	}
 }
